@@ -75,6 +75,13 @@ CHECKS = {
         "design_ref": "DESIGN.md section 4, C19",
         "level_note": "Trusted: mypy call resolution; E5's declaration model. The intern table _known is outside the armed rule (an orphan left by a failing define is unreachable by name, symbol or key); Dimension.scale's translate() guard is infeasible for a fresh unit and is not an entry.",
     },
+    "C20": {
+        "engine": "E1+E2",
+        "technique": "typestate-style structural rule on the interning constructors (membership test and insertion in one atomic section: common module-level lock or returned dict.setdefault), who-may-write on the intern tables, effect check on the lru_cache'd helpers",
+        "level_text": "All threads obtain one object and the registry keeps one entry under every interleaving iff test-and-insert is a single atomic step in each of the three constructors and nothing else writes the tables; decided on the shape of Dimension/Prefix/Unit.__new__ (setdefault idiom after one fix: commit), with the memoised helpers shown effect-free apart from interning calls. Schedules are not enumerated: the argument is that no interleaving point exists between test and insert.",
+        "design_ref": "DESIGN.md section 4, C20",
+        "level_note": "Trusted: CPython's GIL makes dict.setdefault on C-hashed keys atomic; functools.lru_cache is thread-coherent. Not decided: visibility of a partially initialised object between __new__ and __init__; free-threaded builds.",
+    },
     "C18": {
         "engine": "E1+E4+E5",
         "technique": "abstract interpretation of LogarithmicUnit.level and Level.quantify to normal forms with ln/exp heads, compared with the logarithmic definition; units-of-measure typing of the log argument; structural rules; declared bases from E5",
